@@ -129,6 +129,10 @@ pub enum Sel {
     /// a selector the engine cannot parse (`a:visited`, `meta[property=og:title]`): it matches no element
     Unparsable,
     UnparsableAttr,
+    /// `body` / `head, span.nomatch`: type selectors naming the document skeleton. The documents here hold no such element
+    /// inside a target (and these selectors are not used on a target that IS the body / the head), so they match nothing
+    Body,
+    HeadOrSpan,
 }
 
 #[derive(Clone, Debug, Serialize, Deserialize)]
@@ -151,6 +155,8 @@ impl Filt {
             Sel::Empty => Some(""),
             Sel::Unparsable => Some("p:visited::before"),
             Sel::UnparsableAttr => Some("meta[property=og:title]"),
+            Sel::Body => Some("body"),
+            Sel::HeadOrSpan => Some("head, span.nomatch"),
         };
         let mut spec = FilterSpec::html(&self.action, &p, sel, &self.value);
         if self.distinct_inner {
@@ -167,7 +173,7 @@ fn edit_occurrence(f: &Filt, kind: &TargetKind, open: &str, inner: &str, close: 
     let selector_matches = match f.selector {
         Sel::None | Sel::Empty => None,
         Sel::PK => Some(inner_fillers.contains(&P_K) || inner_fillers.iter().any(|f| FILLERS[*f].starts_with("<P CLASS"))),
-        Sel::Nothing | Sel::Unparsable | Sel::UnparsableAttr => Some(false),
+        Sel::Nothing | Sel::Unparsable | Sel::UnparsableAttr | Sel::Body | Sel::HeadOrSpan => Some(false),
     };
     match f.action.as_str() {
         "append_child" => {
@@ -288,8 +294,24 @@ pub fn filters() -> Vec<Filt> {
                 v.push(Filt { action: action.to_string(), selector: selector.clone(), value: value.to_string(), distinct_inner: value == V2 });
             }
         }
+        // the empty value: replace then REMOVES the element, the two insertions change nothing
+        for selector in [Sel::None, Sel::PK, Sel::Nothing] {
+            v.push(Filt { action: action.to_string(), selector, value: String::new(), distinct_inner: false });
+        }
+        for selector in [Sel::Body, Sel::HeadOrSpan] {
+            v.push(Filt { action: action.to_string(), selector, value: V1.to_string(), distinct_inner: false });
+        }
     }
     v
+}
+
+/// the skeleton selectors are not used where the target itself is the element they name
+fn applicable(path: &[String], f: &Filt) -> bool {
+    match f.selector {
+        Sel::Body => path.last().map(|l| l != "body" && l != "html").unwrap_or(true),
+        Sel::HeadOrSpan => path.last().map(|l| l != "head" && l != "html").unwrap_or(true),
+        _ => true,
+    }
 }
 
 pub fn cases(tier: Tier) -> Vec<Case> {
@@ -330,7 +352,7 @@ pub fn cases(tier: Tier) -> Vec<Case> {
             }
         }
         for doc in docs {
-            for f in &fl {
+            for f in fl.iter().filter(|f| applicable(&doc.path, f)) {
                 out.push(Case::One(doc.clone(), f.clone()));
             }
         }
@@ -342,7 +364,7 @@ pub fn cases(tier: Tier) -> Vec<Case> {
                 for sep in [None, Some(0), Some(3), Some(2)] {
                     for inners in [vec![vec![]; k], (0..k).map(|i| vec![(i * 4) % FILLERS.len()]).collect::<Vec<_>>(), (0..k).map(|i| if i % 2 == 0 { vec![P_K] } else { vec![3] }).collect::<Vec<_>>()] {
                         let doc = Doc { path: p.clone(), pre: sides.clone(), post: sides.clone(), targets: inners, separator: sep, kind: TargetKind::Normal, upper: false, attrs: false };
-                        for f in fl.iter() {
+                        for f in fl.iter().filter(|f| applicable(&doc.path, f)) {
                             out.push(Case::One(doc.clone(), f.clone()));
                         }
                     }
@@ -373,7 +395,7 @@ pub fn cases(tier: Tier) -> Vec<Case> {
     let small = filler_lists(1);
     for head_inner in &small {
         for div_inner in small.iter().chain([vec![P_K, 0]].iter()) {
-            for f_head in fl.iter().filter(|f| f.value == V1) {
+            for f_head in fl.iter().filter(|f| f.value == V1 && !matches!(f.selector, Sel::Body | Sel::HeadOrSpan)) {
                 for f_div in fl.iter().filter(|f| f.value == V2) {
                     for div_first in [false, true] {
                         if tier == Tier::Quick && (head_inner.len() + div_inner.len()) % 2 == 1 && div_first {
